@@ -122,6 +122,16 @@ func settingsOf(o *options.Options) []cfgSetting {
 	add("session-store-type", o.Session.Type)
 	add("redis-connection-url", o.Session.Redis.ConnectionURL)
 	add("session-cookie-minimal", o.Session.Cookie.Minimal)
+	add("proxy-prefix", o.ProxyPrefix)
+	add("ping-path", o.PingPath)
+	add("ready-path", o.ReadyPath)
+	add("gcp-healthchecks", o.GCPHealthChecks)
+	add("show-debug-on-error", o.Templates.Debug)
+	add("banner", o.Templates.Banner)
+	add("footer", o.Templates.Footer)
+	add("request-logging", o.Logging.RequestEnabled)
+	add("auth-logging", o.Logging.AuthEnabled)
+	add("silence-ping-logging", o.Logging.SilencePing)
 	pr := o.Providers[0]
 	leg("provider", string(pr.Type))
 	leg("provider-display-name", pr.ID)
@@ -170,6 +180,8 @@ var documentedDefaults = map[string]interface{}{
 	"authenticated-emails-file": "", "skip-jwt-bearer-tokens": false, "extra-jwt-issuers": []string{}, "force-https": false,
 	"redirect-url": "", "htpasswd-file": "", "htpasswd-user-group": []string{}, "session-store-type": "cookie",
 	"redis-connection-url": "", "session-cookie-minimal": false,
+	"proxy-prefix": "/oauth2", "ping-path": "/ping", "ready-path": "/ready", "gcp-healthchecks": false, "show-debug-on-error": false,
+	"banner": "", "footer": "", "request-logging": true, "auth-logging": true, "silence-ping-logging": false,
 	"insecure-oidc-skip-nonce": true, "insecure-oidc-allow-unverified-email": false,
 	"insecure-oidc-skip-issuer-verification": false, "oidc-extra-audience": []string{}, "oidc-audience-claim": []string{"aud"},
 	"oidc-email-claim": "email", "oidc-groups-claim": "groups", "user-id-claim": "email", "skip-oidc-discovery": false,
